@@ -283,6 +283,7 @@ func (in *instr) instrumentBody(body *ast.BlockStmt) {
 	writes := map[ast.Stmt]*writePlan{}
 	rangeReads := map[*ast.RangeStmt][]ast.Stmt{}
 	storeIndex := map[*ast.SelectorExpr]bool{} // x.f in store position x.f[k] = v: a header read only
+	indexLhs := map[*ast.IndexExpr]bool{}     // s[i] in store position
 
 	planStore := func(stmt ast.Stmt, target ast.Expr) {
 		t := unparen(target)
@@ -306,6 +307,15 @@ func (in *instr) instrumentBody(body *ast.BlockStmt) {
 				in.stats["field_writes"]++
 			}
 		case *ast.IndexExpr:
+			if ai, ok := in.objectSlice(x.X); ok && pureExpr(x.X) && pureIndex(x.Index) {
+				// s[i] = v: a store into element i of the array s points into
+				indexLhs[x] = true
+				wp.post = append(wp.post, in.stmtCall("W", addrOf(&ast.IndexExpr{X: cloneSel(unparen(x.X)), Index: cloneSel(unparen(x.Index))}), strLit(ai.loc), strLit(ai.site)))
+				in.stats["slice_index_writes"]++
+				if len(wp.pre) == 0 {
+					wp.pre = append(wp.pre, in.stmtCall("Pre", strLit(ai.loc), strLit(ai.site)))
+				}
+			}
 			if sel, ai, ok := in.mapFieldSel(unparen(x.X)); ok {
 				ai2 := accessInfo{loc: ai.loc + "[]", site: ai.loc + "[]@" + in.funcName}
 				wp.pre = append(wp.pre, in.stmtCall("Pre", strLit(ai2.loc), strLit(ai2.site)))
@@ -363,12 +373,19 @@ func (in *instr) instrumentBody(body *ast.BlockStmt) {
 	// slice header, the elements are the shared memory
 	appendCalls := map[*ast.CallExpr]accessInfo{}
 	rangeSlices := map[*ast.RangeStmt]accessInfo{}
+	indexReads := map[*ast.IndexExpr]accessInfo{}
 	ast.Inspect(body, func(n ast.Node) bool {
 		switch x := n.(type) {
 		case *ast.CallExpr:
 			if id, ok := x.Fun.(*ast.Ident); ok && id.Name == "append" && len(x.Args) >= 1 && in.info().Uses[id] == types.Universe.Lookup("append") {
 				if ai, ok := in.objectSlice(x.Args[0]); ok {
 					appendCalls[x] = ai
+				}
+			}
+		case *ast.IndexExpr:
+			if !indexLhs[x] && !addrTaken[x] {
+				if ai, ok := in.objectSlice(x.X); ok {
+					indexReads[x] = ai
 				}
 			}
 		case *ast.RangeStmt:
@@ -417,6 +434,25 @@ func (in *instr) instrumentBody(body *ast.BlockStmt) {
 
 	// 2. rewrite reads bottom-up
 	astutil.Apply(body, nil, func(c *astutil.Cursor) bool {
+		if ix, isIx := c.Node().(*ast.IndexExpr); isIx {
+			if ai, ok := indexReads[ix]; ok {
+				delete(indexReads, ix)
+				switch p := c.Parent().(type) {
+				case *ast.AssignStmt:
+					for _, l := range p.Lhs {
+						if l == ast.Expr(ix) {
+							return true // a define/assign target that was not planned as a store
+						}
+					}
+				case *ast.IncDecStmt, *ast.RangeStmt:
+					return true
+				}
+				in.stats["slice_index_reads"]++
+				in.needVrt = true
+				c.Replace(&ast.ParenExpr{X: &ast.StarExpr{X: &ast.CallExpr{Fun: vrtSel("R"), Args: []ast.Expr{addrOf(ix), strLit(ai.loc), strLit(ai.site)}}}})
+				return true
+			}
+		}
 		if ai, ok := contentReads[c.Node()]; ok {
 			in.stats["content_reads"]++
 			in.needVrt = true
@@ -528,4 +564,17 @@ func (in *instr) objectSlice(e ast.Expr) (accessInfo, bool) {
 	name := types.TypeString(sl.Elem(), func(p *types.Package) string { return p.Name() })
 	loc := "[]" + name + " elements"
 	return accessInfo{loc: loc, site: loc + "@" + in.funcName}, true
+}
+
+// pureIndex: an index expression that can be evaluated a second time after the
+// statement with the same result (a constant or a plain variable).
+func pureIndex(e ast.Expr) bool {
+	switch x := unparen(e).(type) {
+	case *ast.BasicLit:
+		return true
+	case *ast.Ident:
+		_ = x
+		return true
+	}
+	return false
 }
